@@ -102,6 +102,7 @@ def _trappist(*args, **kwargs):
 def _reduced(*args, **kwargs):
     _solver_tick()
     res = _orig_reduced(*args, **kwargs)
+    _pipe_solve(args, kwargs, res)
     return res
 
 
@@ -183,6 +184,101 @@ def _attractor_test(sd, node_id, graph, pivot, avoid_set):
             LOOPS.append(rec_)
 
 
+
+# ---- attractor-candidate pipeline: stage events for CandTrace.tla (wrapped from outside, no source change) ----
+_orig_cac = _candmod.compute_attractor_candidates
+_orig_mhrs = _candmod.make_heuristic_retained_set
+_orig_greedy = _candmod.asp_greedy_retained_set_optimization
+_orig_simmin = _candmod.run_simulation_minification
+PIPES: list[dict] = []
+_pipe: list = [None]
+PIPE_MAXN = 6
+
+
+def _pstate(space: dict, names: list[str]) -> int:
+    return sum(1 << names.index(k) for k, v in space.items() if v)
+
+
+def _cac(sd, node_id, greedy_asp_minification, simulation_minification, pint_minification):
+    names = var_names(sd)
+    if sd is not CTX.active or CTX.fail_at is not None or len(names) > PIPE_MAXN or _pipe[0] is not None or pint_minification:
+        return _orig_cac(sd, node_id, greedy_asp_minification, simulation_minification, pint_minification)
+    nd = sd.node_data(node_id)
+    space = dict(nd["space"])
+    nfree = len(names) - len(space)
+    rec_ = {"node": node_id + 1, "_sd": sd, "_space": space,
+            "events": [{"k": "begin", "sp": vec(space, names), "greedy": bool(greedy_asp_minification), "sim": bool(simulation_minification),
+                        "candlim": int(sd.config["attractor_candidates_limit"]), "rsthr": int(sd.config["retained_set_optimization_threshold"]),
+                        # the simulation stops when iterations * |C| > minimum_simulation_budget * (free variables); in units of 2^10 iterations
+                        "budget": (int(sd.config["minimum_simulation_budget"]) * nfree) // 1024}]}
+    avhint = []
+    if nd["expanded"]:
+        avhint = [vec(space | sd.edge_stable_motif(node_id, c, reduced=True), names) for c in sd.dag.successors(node_id)]
+    _pipe[0] = rec_
+    ret, out = "ok", []
+    try:
+        r = _orig_cac(sd, node_id, greedy_asp_minification, simulation_minification, pint_minification)
+        out = [_pstate(x, names) for x in r]
+        return r
+    except RuntimeError:
+        ret = "error"
+        raise
+    except BaseException:
+        ret = "abort"
+        raise
+    finally:
+        _pipe[0] = None
+        u = sd.dag.nodes[node_id].get("percolated_nfvs")
+        rec_["events"].append({"k": "end", "ret": ret, "C": out, "uknown": u is not None,
+                               "U": sorted(names.index(x) + 1 for x in (u or [])), "avhint": avhint})
+        del rec_["_sd"], rec_["_space"]
+        if ret != "abort":
+            PIPES.append(rec_)
+
+
+def _mhrs(graph, nfvs, avoid_dnf):
+    r = _orig_mhrs(graph, nfvs, avoid_dnf)
+    rec_ = _pipe[0]
+    if rec_ is not None:
+        names = var_names(rec_["_sd"])
+        sp = rec_["_space"]
+        rec_["events"].append({"k": "retained", "U": sorted(names.index(x) + 1 for x in nfvs),
+                               "av": [vec(sp | a, names) for a in avoid_dnf], "R": vec(r, names)})
+    return r
+
+
+def _greedy_opt(sd, node_id, petri_net, retained_set, candidate_states, avoid_dnf):
+    rec_ = _pipe[0]
+    if rec_ is None or rec_["_sd"] is not sd:
+        return _orig_greedy(sd, node_id, petri_net=petri_net, retained_set=retained_set, candidate_states=candidate_states, avoid_dnf=avoid_dnf)
+    names = var_names(sd)
+    rec_["events"].append({"k": "gbegin"})
+    r = _orig_greedy(sd, node_id, petri_net=petri_net, retained_set=retained_set, candidate_states=candidate_states, avoid_dnf=avoid_dnf)
+    rec_["events"].append({"k": "gend", "R": vec(r[0], names), "C": [_pstate(x | rec_["_space"], names) for x in r[1]]})
+    return r
+
+
+def _simmin(sd, node_id, graph, candidate_states, avoid_bdd, max_iterations, simulation_seed):
+    rec_ = _pipe[0]
+    if rec_ is None or rec_["_sd"] is not sd:
+        return _orig_simmin(sd, node_id, graph, candidate_states, avoid_bdd, max_iterations=max_iterations, simulation_seed=simulation_seed)
+    names = var_names(sd)
+    cin = [_pstate(x | rec_["_space"], names) for x in candidate_states]
+    r = _orig_simmin(sd, node_id, graph, candidate_states, avoid_bdd, max_iterations=max_iterations, simulation_seed=simulation_seed)
+    rec_["events"].append({"k": "sim", "Cin": cin, "it": int(max_iterations), "X": [_pstate(x | rec_["_space"], names) for x in r]})
+    return r
+
+
+def _pipe_solve(args, kwargs, res):
+    rec_ = _pipe[0]
+    if rec_ is None:
+        return
+    names = var_names(rec_["_sd"])
+    retained = args[1] if len(args) > 1 else kwargs.get("retained_set")
+    lim_ = kwargs.get("solution_limit", None)
+    rec_["events"].append({"k": "solve", "r": vec(retained, names), "L": -1 if lim_ is None else int(lim_),
+                           "X": [_pstate(x | rec_["_space"], names) for x in res]})
+
 # ---- block expansion: the "is this block clean?" verdicts (queries on component sub-diagrams) ----
 _orig_cand = SuccessionDiagram.node_attractor_candidates
 _orig_seeds = SuccessionDiagram.node_attractor_seeds
@@ -219,6 +315,10 @@ def install():
     _minmod.trappist = _trappist
     _asmod.compute_fixed_point_reduced_STG = _reduced_aseeds
     _candmod.compute_fixed_point_reduced_STG = _reduced
+    _sdmod.compute_attractor_candidates = _cac
+    _candmod.make_heuristic_retained_set = _mhrs
+    _candmod.asp_greedy_retained_set_optimization = _greedy_opt
+    _candmod.run_simulation_minification = _simmin
 
 
 install()
@@ -338,7 +438,7 @@ EMPTY_PROJ = {"nodes": [], "edges": [], "idx": [], "len": 0, "depth": 0, "ids": 
 DEFAULT_EVENT = {"op": "", "n": 0, "lvl": -1, "size": -1, "stk": -1, "skip": False, "target": [],
                  "greedy": True, "sim": True, "fallback": False, "maa": True, "optsrc": True, "exact": False,
                  "ret": "none", "out": [], "raised": False, "exc": "", "xl": [], "mts": [], "orc": [],
-                 "fail_at": 0, "solver_calls": 0, "loops": [], "work": 0, "ctl": [], "strategy": "internal", "bound": -1,
+                 "fail_at": 0, "solver_calls": 0, "loops": [], "pipes": [], "work": 0, "ctl": [], "strategy": "internal", "bound": -1,
                  "forbidden": [], "sonly": True, "cmpops": [], "other": EMPTY_PROJ, "newcfg": {"maxm": 0, "candlim": 0, "rsthr": 0, "simbudget": 0, "nfvsthr": 0}}
 
 
@@ -360,6 +460,7 @@ def run_op(sd: SuccessionDiagram, op: dict, timeout_s: float = 45.0) -> tuple[Su
     CTX.active = sd
     CTX.xl, CTX.mts, CTX.orc = [], [], []
     LOOPS.clear()
+    PIPES.clear()
     CTX.solver_calls = 0
     CTX.fail_at = ev["fail_at"] or None
     CTX.blockmode = kind in ("block", "scc")
@@ -502,6 +603,7 @@ def run_op(sd: SuccessionDiagram, op: dict, timeout_s: float = 45.0) -> tuple[Su
     if CTX.mts and kind in ("min", "aseeds", "skipmin", "skiprem"):
         ev["mts"] = [vec(start_space | x, names) for x in CTX.mts[0]]
     ev["loops"] = list(LOOPS)
+    ev["pipes"] = list(PIPES)
     ev["work"] = WORK.take()
     ev["post"] = project(sd)
     CTX.active = None
@@ -638,5 +740,10 @@ def record_trace(tid: str, tt: list[list[int]], ops, cfg: dict | None = None, ti
         events.append(ev)
         if ev["exc"] == "Hang":
             break
+    # pipeline stage records travel next to the events (validated by CandTrace.tla, not by SDTrace.tla)
+    pipes = []
+    for i, e in enumerate(events):
+        for rec_ in e.pop("pipes", []):
+            pipes.append({"event": i + 1, "node": rec_["node"], "events": rec_["events"]})
     return {"tid": tid, "net": {"n": len(tt), "f": tt_in_code_order(tt, names, code_names)},
-            "names": code_names, "cfg": cfg, "events": events}
+            "names": code_names, "cfg": cfg, "events": events, "pipes": pipes}
